@@ -375,24 +375,31 @@ def x86FormatHead (flags : Nat) (env : Env) (instId options : Nat) (extra : Extr
     (x86HeadWords flags env options extra).flatMap (fun w => w ++ [' ']) ++ x86InstName flags instId
   else "[InstId=#".toList ++ uintStr instId ++ [']']
 
+/-- AVX-512 masking after the first operand: ` {k}` [`{z}`], or ` {z}` alone -/
+def x86KZText (flags : Nat) (env : Env) (options : Nat) (extra : ExtraReg) (i : Nat) : Str :=
+  if i = 0 then
+    if extra.group = rgMask then
+      " {".toList ++ x86FormatRegister flags env extra.type extra.id ++ ['}'] ++ (if hasBit options ioZMask then "{z}".toList else [])
+    else if hasBit options ioZMask then " {z}".toList else []
+  else []
+
+/-- AVX-512 broadcast ` {1toN}` after a memory operand -/
+def x86BcastText (op : Operand) : Str :=
+  match op with
+  | .x86mem m => if m.bcast ≠ 0 then " {1to".toList ++ uintStr (1 <<< m.bcast) ++ ['}'] else []
+  | _ => []
+
+/-- everything printed for operand `i` after its separator (the kExplainImms annotation would follow the operand text: not modelled) -/
+def x86ChunkText (flags : Nat) (env : Env) (options : Nat) (extra : ExtraReg) (i : Nat) (op : Operand) : Str :=
+  x86FormatOperand flags env op ++ x86KZText flags env options extra i ++ x86BcastText op
+
 /-- the operand loop: stops at the first `none` operand -/
 def x86FormatOps (flags : Nat) (env : Env) (options : Nat) (extra : ExtraReg) : Nat → List Operand → Str
   | _, [] => []
   | _, .none :: _ => []
   | i, op :: rest =>
-    let sb : Str := (if i = 0 then " " else ", ").toList ++ x86FormatOperand flags env op
-    -- (kExplainImms annotation would be appended here: not modelled)
-    let sb :=
-      if i = 0 then
-        if extra.group = rgMask then
-          sb ++ " {".toList ++ x86FormatRegister flags env extra.type extra.id ++ ['}'] ++ (if hasBit options ioZMask then "{z}".toList else [])
-        else if hasBit options ioZMask then sb ++ " {z}".toList else sb
-      else sb
-    let sb :=
-      match op with
-      | .x86mem m => if m.bcast ≠ 0 then sb ++ " {1to".toList ++ uintStr (1 <<< m.bcast) ++ ['}'] else sb
-      | _ => sb
-    sb ++ x86FormatOps flags env options extra (i + 1) rest
+    (if i = 0 then " " else ", ").toList ++ x86ChunkText flags env options extra i op ++
+      x86FormatOps flags env options extra (i + 1) rest
 
 def x86RoundingMode (bits : Nat) : Str :=
   (match bits with | 0 => "rn" | 1 => "rd" | 2 => "ru" | _ => "rz").toList
